@@ -18,3 +18,7 @@ func VerifParseQuery(q string) (sqls []string, args []string, err error) {
 	}
 	return s, args, err
 }
+
+// VerifSingleConn limits the pool to one connection: with the ":memory:" data source every further
+// connection would be a separate, empty database.
+func VerifSingleConn(d *DB) { d.sql.SetMaxOpenConns(1) }
